@@ -301,4 +301,18 @@ theorem addDur_date_spec (v : DT) (dur : Int) (neg : Bool) (hv : v.Valid) (hd : 
     refine ⟨{ w with tz := some z }, rfl, valid_setTz hwv _ (by rw [← htz]; exact hv.2.2), rfl, ?_⟩
     rw [localC_setTz]; simpa using hwl
 
+/-- `adjust-date-to-timezone` with both timezones present: the day that contains, in the new timezone,
+the first instant of the date -/
+theorem adjustDate_spec (v : DT) (z0 z : Int) (hv : v.Valid) (htz : v.tz = some z0) (hz : -840 ≤ z ∧ z ≤ 840)
+    (hd : AddDomain v ((z - z0) * UM) false) :
+    ∃ w, adjustDate v (some z) = .ok w ∧ w.Valid ∧ w.tz = some z ∧
+      (absV w).localC = ((absV v).localC + (z - z0) * UM) - ((absV v).localC + (z - z0) * UM) % US := by
+  obtain ⟨w, h1, h2, h3, h4⟩ := addDur_date_spec v _ false hv hd
+  unfold adjustDate
+  rw [htz]
+  simp only []
+  rw [h1]
+  refine ⟨{ w with tz := some z }, rfl, valid_setTz h2 _ (by intro z' h; cases h; exact hz), rfl, ?_⟩
+  rw [localC_setTz, h4]; simp
+
 end EPV.Cal
